@@ -334,6 +334,61 @@ def family_agg(tier, start=0):
     return _finish(cases)
 
 
+def family_agg3(tier, start=0):
+    """Aggregates over a TERNARY relation t3(x,y,z): the aggregated column, the bound (grouping) column and an
+    unbound wildcard/local column in every relative position, so that the index order differs from the order of
+    the aggregated column (min/max early-exit, range bounds on indexed aggregates)."""
+    import itertools as it
+    cases = []
+    cid = start
+    cols = [X, Y, Z]
+    for perm in it.permutations(range(3)):
+        # perm: position of (group var x, free var, aggregated var z)
+        for free_kind in ("anon", "local"):
+            for op in ("min", "max", "sum", "count"):
+                for grouped in (True, False):
+                    args = [None, None, None]
+                    args[perm[0]] = X if grouped else (Anon() if free_kind == "anon" else Var("w"))
+                    args[perm[1]] = Anon() if free_kind == "anon" else Y
+                    args[perm[2]] = Z
+                    agg = Agg(op, None if op == "count" else Z, [Atom("t3", args)])
+                    P = Program()
+                    P.rel("a", [("x", "number")], is_input=True)
+                    P.rel("t3", [("x", "number"), ("y", "number"), ("z", "number")], is_input=True)
+                    r = "r_%d" % cid
+                    P.rel(r, [("x", "number"), ("c", "number")], is_output=True)
+                    if grouped:
+                        P.rules.append(Rule([Atom(r, [X, Var("c")])], [Atom("a", [X]), Cmp("=", Var("c"), agg)], None))
+                    else:
+                        P.rules.append(Rule([Atom(r, [Num(0), Var("c")])], [Cmp("=", Var("c"), agg)], None))
+                    cases.append(Case(cid, "agg3", P, show(P.rules[-1])))
+                    cid += 1
+    # two bound columns, constant column, inner comparison on the free column
+    extra = [
+        [Atom("a", [X]), Atom("a", [Y]), Cmp("=", Var("c"), Agg("min", Z, [Atom("t3", [X, Y, Z])]))],
+        [Atom("a", [X]), Cmp("=", Var("c"), Agg("min", Z, [Atom("t3", [X, Num(1), Z])]))],
+        [Atom("a", [X]), Cmp("=", Var("c"), Agg("max", Z, [Atom("t3", [Num(1), X, Z])]))],
+        [Atom("a", [X]), Cmp("=", Var("c"), Agg("min", Z, [Atom("t3", [X, Y, Z]), Cmp("<", Num(0), Y)]))],
+        [Atom("a", [X]), Cmp("=", Var("c"), Agg("max", Z, [Atom("t3", [X, Y, Z]), Cmp("<", Y, Z)]))],
+        [Atom("a", [X]), Cmp("=", Var("c"), Agg("min", Y, [Atom("t3", [X, Y, Z]), Atom("a", [Z])]))],
+    ]
+    for body in extra:
+        P = Program()
+        P.rel("a", [("x", "number")], is_input=True)
+        P.rel("t3", [("x", "number"), ("y", "number"), ("z", "number")], is_input=True)
+        r = "r_%d" % cid
+        P.rel(r, [("x", "number"), ("c", "number")], is_output=True)
+        P.rules.append(Rule([Atom(r, [X, Var("c")])], body, None))
+        cases.append(Case(cid, "agg3", P, show(P.rules[-1])))
+        cid += 1
+    dbs = []
+    for a in (((0,), (1,), (2,)),):
+        for rows in ((), ((1, 2, 9), (1, 3, 4), (1, 4, 7)), ((0, 0, 5), (0, 1, 3), (1, 0, 2), (1, 1, 8), (1, 2, 1), (2, 2, 2)),
+                     ((2, 1, 1), (1, 1, 9), (1, 2, 0), (0, 2, 4), (0, 1, 6), (1, 0, 5))):
+            dbs.append({"a": a, "t3": rows})
+    return _finish(cases), dbs
+
+
 def family_aggtyped(tier, start=0):
     """sum/min/max/mean/count at unsigned and float column types (exactly summable values)."""
     cases = []
